@@ -61,3 +61,120 @@ pub proof fn lemma_lcm_step_multiple(acc: nat, x: nat, g: nat)
     assert((q * x) % x == 0) by { vstd::arithmetic::div_mod::lemma_mod_multiples_basic(q as int, x as int); }
 }
 }
+verus!{
+// ---------- mathematical gcd / lcm fold (the exec functions are proved equal to these) ----------
+pub open spec fn spec_gcd(a: nat, b: nat) -> nat
+    decreases b
+{
+    if b == 0 { a } else { spec_gcd(b, a % b) }
+}
+pub open spec fn spec_lcm_step(acc: usize, x: usize) -> Option<usize> {
+    if acc == 0 || x == 0 { Some(0usize) } else {
+        let m = (acc as nat / spec_gcd(acc as nat, x as nat)) * (x as nat);
+        if m <= usize::MAX { Some(m as usize) } else { None }
+    }
+}
+/// `util::lcm` over the present values among the first k (`flat_map` skips `None`): a `try_fold` from 1
+pub open spec fn lcm_fold(vals: Seq<Option<usize>>, k: int) -> Option<usize>
+    decreases k
+{
+    if k <= 0 { Some(1usize) } else {
+        match lcm_fold(vals, k - 1) {
+            None => None,
+            Some(acc) => match vals[k - 1] { Some(x) => spec_lcm_step(acc, x), None => Some(acc) },
+        }
+    }
+}
+pub proof fn lemma_spec_gcd_divides(a: nat, b: nat)
+    requires a > 0 || b > 0
+    ensures spec_gcd(a, b) > 0, common_divisor(spec_gcd(a, b), a, b)
+    decreases b
+{
+    if b == 0 {
+        assert(a % a == 0) by (nonlinear_arith) requires a > 0;
+        assert(0nat % a == 0) by (nonlinear_arith) requires a > 0;
+    } else {
+        lemma_spec_gcd_divides(b, a % b);
+        lemma_euclid_step(a, b, spec_gcd(b, a % b));
+    }
+}
+pub proof fn lemma_spec_gcd_of_divisor(a: nat, b: nat)
+    requires a > 0, b > 0, b % a == 0
+    ensures spec_gcd(a, b) == a, spec_gcd(b, a) == a
+{
+    reveal_with_fuel(spec_gcd, 4);
+    assert(spec_gcd(b, a) == spec_gcd(a, b % a));
+    assert(a <= b) by { if a > b { vstd::arithmetic::div_mod::lemma_small_mod(b, a); } }
+    if a < b {
+        vstd::arithmetic::div_mod::lemma_small_mod(a, b);
+        assert(spec_gcd(a, b) == spec_gcd(b, a));
+    } else {
+        assert(a % b == 0) by (nonlinear_arith) requires a == b, b > 0;
+    }
+}
+/// the step never decreases: the new value is at least both operands (when they are positive)
+pub proof fn lemma_spec_lcm_step_bounds(acc: usize, x: usize)
+    requires acc != 0, x != 0, spec_lcm_step(acc, x) is Some
+    ensures spec_lcm_step(acc, x)->0 >= acc, spec_lcm_step(acc, x)->0 >= x
+{
+    lemma_spec_gcd_divides(acc as nat, x as nat);
+    lemma_lcm_step_bounds(acc as nat, x as nat, spec_gcd(acc as nat, x as nat));
+}
+/// when one operand divides the other the step returns the larger one (the case of power-of-two alignments)
+pub proof fn lemma_spec_lcm_step_chain(acc: usize, x: usize)
+    requires acc != 0, x != 0, (x % acc == 0 || acc % x == 0)
+    ensures spec_lcm_step(acc, x) == Some(if x % acc == 0 { x } else { acc })
+{
+    if x % acc == 0 {
+        lemma_spec_gcd_of_divisor(acc as nat, x as nat);
+        assert((acc as nat / acc as nat) == 1) by (nonlinear_arith) requires acc != 0;
+        assert(1 * (x as nat) == x as nat) by (nonlinear_arith);
+    } else {
+        lemma_spec_gcd_of_divisor(x as nat, acc as nat);
+        lemma_div_exact(acc as nat, x as nat);
+    }
+}
+pub proof fn lemma_lcm_fold_ge(vals: Seq<Option<usize>>, k: int)
+    requires 0 <= k <= vals.len(), lcm_fold(vals, k) is Some, lcm_fold(vals, k)->0 != 0
+    ensures forall|i: int| 0 <= i < k && (#[trigger] vals[i]) is Some && vals[i]->0 != 0 ==> vals[i]->0 <= lcm_fold(vals, k)->0
+    decreases k
+{
+    if k > 0 {
+        let acc = lcm_fold(vals, k - 1)->0;
+        match vals[k - 1] {
+            Some(x) => {
+                if acc != 0 && x != 0 {
+                    lemma_spec_lcm_step_bounds(acc, x);
+                    lemma_lcm_fold_ge(vals, k - 1);
+                }
+            },
+            None => { lemma_lcm_fold_ge(vals, k - 1); },
+        }
+    }
+}
+pub proof fn lemma_lcm_fold_zero(vals: Seq<Option<usize>>, k: int)
+    requires 0 <= k <= vals.len(), lcm_fold(vals, k) == Some(0usize)
+    ensures exists|i: int| 0 <= i < k && #[trigger] vals[i] == Some(0usize)
+    decreases k
+{
+    if k > 0 {
+        let acc = lcm_fold(vals, k - 1)->0;
+        match vals[k - 1] {
+            Some(x) => {
+                if x == 0 { assert(vals[k - 1] == Some(0usize)); }
+                else if acc == 0 { lemma_lcm_fold_zero(vals, k - 1); }
+                else { lemma_spec_lcm_step_bounds(acc, x); }
+            },
+            None => { lemma_lcm_fold_zero(vals, k - 1); },
+        }
+    }
+}
+
+pub proof fn lemma_lcm_fold_none_stable(vals: Seq<Option<usize>>, k: int, n: int)
+    requires 0 <= k <= n <= vals.len(), lcm_fold(vals, k) is None
+    ensures lcm_fold(vals, n) is None
+    decreases n - k
+{
+    if k < n { lemma_lcm_fold_none_stable(vals, k, n - 1); }
+}
+}
